@@ -7,6 +7,16 @@ import (
 	"strings"
 )
 
+// attributeEscaper escapes the characters that could end a double-quoted
+// attribute value or open a tag. Single quotes are left alone because they
+// are used by inline handlers such as onclick="location.href='...'".
+var attributeEscaper = strings.NewReplacer(
+	"&", "&amp;",
+	"<", "&lt;",
+	">", "&gt;",
+	`"`, "&#34;",
+)
+
 type Tag struct {
 	tag        string
 	attributes map[string]string
@@ -33,7 +43,8 @@ func (c *Tag) WriteHTMLTo(w io.Writer) (int64, error) {
 	for _, name := range names {
 		value := c.attributes[name]
 		if value != "" {
-			attributes += fmt.Sprintf(`%s="%s" `, name, value)
+			attributes += fmt.Sprintf(`%s="%s" `, name,
+				attributeEscaper.Replace(value))
 		}
 	}
 
